@@ -3,6 +3,7 @@ CONSTANTS
   L = 4
   FixPred = FALSE
   FixLeave = FALSE
+  FixWrap = FALSE
   MaxTry = 10
   MCLayout <- DummyLay
   InitMembers = {}
